@@ -77,6 +77,13 @@ func init() {
 					jobs = append(jobs, Job{Harness: "VX_C03_sort", Params: P("types", ts, "flags", fl, "n", itoa(nn), "P", itoa(ppp))})
 				}
 			}
+			// Sort on frames with a history (sorted before, key replaced / filtered / re-sorted)
+			for _, via := range []string{"apply", "copy", "eval", "filter", "reverse", "same"} {
+				jobs = append(jobs, Job{Harness: "VX_C03_resort", Params: P("via", via, "first", "k", "n", "3", "P", "4")})
+				if via == "copy" || via == "same" || tier == "thorough" {
+					jobs = append(jobs, Job{Harness: "VX_C03_resort", Params: P("via", via, "first", "k,y", "n", "3", "P", "3")})
+				}
+			}
 			k := func(kernel, mode string, n int) {
 				jobs = append(jobs, Job{Harness: "VX_C03_kernel", Params: P("kernel", kernel, "mode", mode, "n", itoa(n)), MaxPaths: 400000})
 			}
@@ -186,8 +193,17 @@ func c04jobs(harness string, tier string) []Job {
 			}
 		}
 	}
+	// small key domains (enum, bool): more rows than keys, several nulls
+	for _, ts := range []string{"enum"} {
+		for _, nl := range []string{"true", "false"} {
+			jobs = append(jobs, Job{Harness: harness, Params: P("types", ts, "n", "5", "null", nl, "ix", "rev", "agg", "none", "cols", "given", "slots", "0", "kconc", "1"), MaxPaths: 200000})
+			jobs = append(jobs, Job{Harness: harness, Params: P("types", ts, "n", "4", "null", nl, "ix", "any", "agg", "none", "cols", "given", "slots", "0", "kconc", "1"), MaxPaths: 200000})
+		}
+	}
 	// the hash table across a growth step (5 distinct keys fill the 8-slot table beyond load factor 0.5)
 	jobs = append(jobs, Job{Harness: "VX_C04_table", Params: P("n", "7", "conc", "5", "hash", "ident"), MaxPaths: 300000})
+	jobs = append(jobs, Job{Harness: "VX_C04_table", Params: P("n", "7", "conc", "5", "hash", "ident", "stride", "8"), MaxPaths: 300000})
+	jobs = append(jobs, Job{Harness: "VX_C04_table", Params: P("n", "7", "conc", "5", "hash", "ident", "stride", "16"), MaxPaths: 300000})
 	if tier == "thorough" {
 		jobs = append(jobs, Job{Harness: "VX_C04_table", Params: P("n", "6", "conc", "5", "hash", "uf"), MaxPaths: 1000000})
 		jobs = append(jobs, Job{Harness: "VX_C04_table", Params: P("n", "8", "conc", "5", "hash", "ident"), MaxPaths: 1000000})
@@ -263,6 +279,7 @@ func init() {
 			}
 			steps = append(steps, "fn2:z:a:b:int", "fn2:a:a:b:int", "fn2:b:a:b:int", "fn2:z:a:a:int", "fn2:z:f:f:float", "fn2:z:c:c:bool", "fn2:z:s:s:string", "fn2:s:s:s:string", "fn2:z:e:e:enum")
 			steps = append(steps, "upper:z:s", "upper:s:s", "upper:z:e")
+
 			// sequences: second reads the first's destination; same destination twice; chain through new column
 			steps = append(steps, "fn1:z:a::int>int;fn1:y:z::int>float", "const_int:z;const_float:z", "fn1:a:a::int>int;fn2:b:a:b:int", "copy:z:b;fn2:z:z:a:int", "fn0_counter:z;fn0_counter:y")
 			var jobs []Job
@@ -278,6 +295,13 @@ func init() {
 				jobs = append(jobs, Job{Harness: "VX_C06_apply", Params: P("steps", s, "mode", "apply", "n", "3", "P", "3")})
 			}
 			jobs = append(jobs, Job{Harness: "VX_C06_apply", Params: P("steps", "", "mode", "rownums", "n", "3", "P", "3")})
+			// user functions that may hand back their own argument (string and enum sources, one and two arguments)
+			for _, src := range []string{"s", "e"} {
+				for _, mode := range []string{"apply", "filtered"} {
+					jobs = append(jobs, Job{Harness: "VX_C06_passthru", Params: P("src", src, "mode", mode, "args", "1"), MaxPaths: 100000})
+				}
+				jobs = append(jobs, Job{Harness: "VX_C06_passthru", Params: P("src", src, "mode", "apply", "args", "2"), MaxPaths: 100000})
+			}
 			jobs = append(jobs, Job{Harness: "VX_C06_apply", Params: P("steps", "fn1:z:a::int>int", "mode", "filtered", "n", "3", "P", "3")})
 			// frames that are projections of wider frames (column positions moved)
 			for _, pre := range []string{"drop_first", "select_rev", "drop_mid"} {
@@ -379,6 +403,9 @@ func init() {
 					jobs = append(jobs, Job{Harness: "VX_C07_eval", Params: P("expr", e, "dst", dst, "n", "2", "P", "3")})
 				}
 			}
+			for _, e := range []string{"( - a b )", "( abs a )", "a", "( u2 ( - a b ) #i )"} {
+				jobs = append(jobs, Job{Harness: "VX_C07_eval", Params: P("expr", e, "dst", "z", "n", "2", "P", "3", "sib", "1")})
+			}
 			jobs = append(jobs, Job{Harness: "VX_C07_ctx"})
 			for _, c := range []string{"unknown_fn", "unknown_fn1", "unknown_col", "unknown_col_const", "type_mismatch", "type_mismatch_const", "no_args", "malformed_list", "malformed_op", "not_a_list", "nested_error", "nested_error_lhs"} {
 				jobs = append(jobs, Job{Harness: "VX_C07_errors", Params: P("case", c)})
@@ -407,17 +434,27 @@ func init() {
 			}
 			jobs := []Job{{Harness: "VX_C09_observe", Params: P("n", itoa(n), "P", itoa(pp))}, {Harness: "VX_C09_observe", Params: P("n", "3", "P", "3", "ix", "swap01")}, {Harness: "VX_C09_observe", Params: P("n", "2", "P", "3", "pre", "select_copy")}, {Harness: "VX_C09_observe", Params: P("n", "2", "P", "3", "pre", "siblings")}, {Harness: "VX_C09_observe", Params: P("n", "4", "P", "4", "ix", "mid")}}
 			for _, sk := range []string{"ifb", "se", "i"} {
-				p2 := pp
-				if sk == "se" && tier != "thorough" {
-					p2 = 2
+				n2, p2 := n, pp
+				if sk == "se" {
+					// two independent arrangements of string/enum frames: P=2 (thorough 3) keeps it within minutes
+					n2, p2 = 2, 2
+					if tier == "thorough" {
+						p2 = 3
+					}
 				}
-				jobs = append(jobs, Job{Harness: "VX_C09_equals", Params: P("skel", sk, "n", itoa(n), "P", itoa(p2))})
+				jobs = append(jobs, Job{Harness: "VX_C09_equals", Params: P("skel", sk, "n", itoa(n2), "P", itoa(p2))})
 			}
 			for _, c := range []string{"renamed", "reordered", "enum_vs_string", "float_vs_int", "fewer_cols", "fewer_rows"} {
 				jobs = append(jobs, Job{Harness: "VX_C09_mismatch", Params: P("case", c)})
 			}
+			{
+				jobs = append(jobs, Job{Harness: "VX_C09_enum_dicts"})
+			}
 			for _, op := range []string{"filter", "sort", "slice", "select", "copy"} {
-				jobs = append(jobs, Job{Harness: "VX_C09_rebuild", Params: P("op", op, "n", itoa(n), "P", itoa(pp))})
+				jobs = append(jobs, Job{Harness: "VX_C09_rebuild", Params: P("op", op, "n", "2", "P", "3")})
+				if tier == "thorough" {
+					jobs = append(jobs, Job{Harness: "VX_C09_rebuild", Params: P("op", op, "n", "3", "P", "3")})
+				}
 			}
 			return jobs
 		},
@@ -438,7 +475,7 @@ func init() {
 }
 
 func init() {
-	c10cases := []string{"filter_unknown_col", "filter_unknown_cmp_int", "filter_unknown_cmp_float", "filter_unknown_cmp_bool", "filter_unknown_cmp_string", "filter_unknown_cmp_enum", "filter_cmp_not_string", "filter_fn_wrong_type_int", "filter_fn_wrong_type_string", "filter_fn_wrong_type_enum", "filter_arg_wrong_type_int", "filter_arg_wrong_type_float", "filter_arg_int_for_float", "filter_arg_nan", "filter_arg_wrong_type_bool", "filter_arg_wrong_type_string", "filter_arg_wrong_type_enum", "filter_arg_struct", "filter_arg_nil_cmp_lt", "filter_arg_mixed_list", "filter_arg_list_for_lt", "filter_unknown_arg_col", "filter_arg_col_type_mismatch", "filter_arg_col_type_mismatch2", "filter_fn2_without_col", "filter_enum_unknown_value", "filter_bad_regex", "filter_bad_regex_enum", "and_empty", "or_empty", "not_invalid", "nested_invalid", "inverse_invalid", "sort_unknown", "select_unknown", "slice_bad", "copy_unknown", "copy_self_unknown", "apply_copy_self_unknown", "eval_val_unknown_self", "or_all_rows_then_invalid", "or_complement_then_invalid", "and_none_then_invalid", "empty_frame_invalid_filter", "empty_frame_invalid_apply", "empty_frame_invalid_sort", "copy_badname", "apply_unknown_src", "apply_unknown_src2", "apply_fn_wrong_type", "apply_fn_wrong_type_string", "apply_fn_wrong_type_enum", "apply_fn0_invalid", "apply_fn0_func_wrong", "apply_fn2_mismatched_cols", "apply_fn2_wrong_fn", "apply_fn2_mismatched_string_enum", "apply_unknown_builtin", "apply_unknown_builtin_int", "apply_unknown_builtin2", "apply_bad_dst", "apply_empty_dst", "apply_copy_unknown", "filteredapply_invalid_clause", "filteredapply_invalid_instr", "eval_unknown_fn", "eval_bad_dst", "distinct_unknown", "rownums_bad_name", "groupby_unknown", "aggregate_unknown_col", "aggregate_unknown_fn", "aggregate_fn_wrong_type", "aggregate_fn_wrong_type_string", "aggregate_fn_wrong_type_enum", "aggregate_on_group_col", "aggregate_duplicate", "aggregate_string_builtin"}
+	c10cases := []string{"filter_unknown_col", "filter_unknown_cmp_int", "filter_unknown_cmp_float", "filter_unknown_cmp_bool", "filter_unknown_cmp_string", "filter_unknown_cmp_enum", "filter_cmp_not_string", "filter_fn_wrong_type_int", "filter_fn_wrong_type_string", "filter_fn_wrong_type_enum", "filter_arg_wrong_type_int", "filter_arg_wrong_type_float", "filter_arg_int_for_float", "filter_arg_nan", "filter_arg_wrong_type_bool", "filter_arg_wrong_type_string", "filter_arg_wrong_type_enum", "filter_arg_struct", "filter_arg_nil_cmp_lt", "filter_arg_mixed_list", "filter_arg_list_for_lt", "filter_unknown_arg_col", "filter_arg_col_type_mismatch", "filter_arg_col_type_mismatch2", "filter_fn2_without_col", "filter_enum_unknown_value", "filter_bad_regex", "filter_bad_regex_enum", "and_empty", "or_empty", "not_invalid", "nested_invalid", "inverse_invalid", "sort_unknown", "select_unknown", "slice_bad", "copy_unknown", "copy_self_unknown", "apply_copy_self_unknown", "eval_val_unknown_self", "or_all_rows_then_invalid", "or_complement_then_invalid", "and_none_then_invalid", "empty_frame_invalid_filter", "empty_frame_invalid_apply", "empty_frame_invalid_sort", "copy_badname", "apply_unknown_src", "apply_unknown_src2", "apply_fn_wrong_type", "apply_fn_wrong_type_string", "apply_fn_wrong_type_enum", "apply_fn0_invalid", "apply_fn0_func_wrong", "apply_fn2_mismatched_cols", "apply_fn2_wrong_fn", "apply_fn2_mismatched_string_enum", "apply_unknown_builtin", "apply_unknown_builtin_int", "apply_unknown_builtin2", "apply_bad_dst", "apply_empty_dst", "apply_copy_unknown", "filteredapply_invalid_clause", "filteredapply_invalid_instr", "eval_unknown_fn", "eval_bad_dst", "distinct_unknown", "rownums_bad_name", "groupby_unknown", "empty_frame_groupby_unknown", "empty_frame_distinct_unknown", "empty_frame_groupby_unknown_agg", "filter_bad_regex_twice", "filter_bad_regex_twice_ilike", "aggregate_unknown_col", "aggregate_unknown_fn", "aggregate_fn_wrong_type", "aggregate_fn_wrong_type_string", "aggregate_fn_wrong_type_enum", "aggregate_on_group_col", "aggregate_duplicate", "aggregate_string_builtin"}
 	register(&Property{
 		ID: "C10", Dirs: []string{"root"},
 		Jobs: func(tier string) []Job {
@@ -468,7 +505,7 @@ func init() {
 var c01ops = []string{"filter", "filter_or", "filter_notand", "filter_inv", "sort", "sort2", "slice", "slice_tail", "select", "drop", "copy", "copy_over",
 	"apply_fn1", "apply_fn2", "apply_const", "apply_upper", "filtered_apply", "eval", "rownums", "distinct", "aggregate", "qframes",
 	"copy_y", "rownums_new", "eval_new", "apply_new", "aggregate_nokey", "qframes_aggregate",
-	"grouper_aggregate", "filter_ilike", "filter_like_regex", "eval_ctx", "tosql", "filter_promote", "distinct_float", "groupby_float", "views", "tocsv", "tojson", "string", "equals"}
+	"grouper_aggregate", "filter_ilike", "filter_like_regex", "eval_ctx", "tosql", "filter_promote", "distinct_float", "groupby_float", "upper_enum", "filter_and_all", "views", "tocsv", "tojson", "string", "equals"}
 
 func c01jobs(tier string, strict bool) []Job {
 	var jobs []Job
@@ -489,7 +526,7 @@ func c01jobs(tier string, strict bool) []Job {
 		jobs = append(jobs, Job{Harness: "VX_C01_persist", Params: P("ops", "x_append_spare", "n", itoa(n), "P", itoa(pp), "strict", st), ExpectSat: true})
 	}
 	pairs := []string{"slice,sort", "slice,filter_or", "sort,slice", "filter,apply_fn1", "slice,filter_notand", "sort,sort2", "copy,apply_fn2", "select,copy", "filter,distinct", "slice,qframes", "apply_fn1,eval", "slice_tail,filter", "filter,filter_inv", "slice,aggregate", "sort,filtered_apply", "rownums,sort",
-		"copy,copy_y", "copy,rownums_new", "apply_new,eval_new", "eval_new,copy", "rownums_new,apply_new", "copy,copy_y,apply_new", "sort,aggregate_nokey", "slice,aggregate_nokey", "sort,qframes_aggregate", "filter_promote,sort", "filter_ilike,filter_ilike", "filter_like_regex,filter_like_regex", "grouper_aggregate,grouper_aggregate", "tosql,tosql"}
+		"copy,copy_y", "copy,rownums_new", "apply_new,eval_new", "eval_new,copy", "rownums_new,apply_new", "copy,copy_y,apply_new", "sort,aggregate_nokey", "slice,aggregate_nokey", "sort,qframes_aggregate", "filter_promote,sort", "filter_and_all,sort", "slice,filter_and_all", "filter_ilike,filter_ilike", "filter_like_regex,filter_like_regex", "grouper_aggregate,grouper_aggregate", "tosql,tosql"}
 	if tier == "thorough" {
 		for _, a := range []string{"slice", "sort", "filter", "slice_tail", "copy", "apply_fn1"} {
 			for _, b := range c01ops {
@@ -511,9 +548,9 @@ func init() {
 		Jobs:   func(tier string) []Job { return c01jobs(tier, false) },
 		Bounds: func(tier string) string {
 			if tier == "thorough" {
-				return "family {base (P=5 rows, shared column storage via Copy), f0 = permuted+sliced frame with spare index capacity (n=4), results}; numeric cells symbolic, string/enum cells concrete; every one of 41 operations as single step; 6x27 two-step histories applied both to the newest member and to the shared ancestor; 5 three-step histories; every member re-observed (Len, names, types, Err, every cell through the typed views) after every step"
+				return "family {base (P=5 rows, shared column storage via Copy), f0 = permuted+sliced frame with spare index capacity (n=4), results}; numeric cells symbolic, string/enum cells concrete; every one of 43 operations as single step; 6x27 two-step histories applied both to the newest member and to the shared ancestor; 5 three-step histories; every member re-observed (Len, names, types, Err, every cell through the typed views) after every step"
 			}
-			return "family {base (P=4 rows, shared column storage via Copy), f0 = permuted+sliced frame with spare index capacity (n=3), results}; numeric cells symbolic, string/enum cells concrete; every one of 41 operations as single step; 16 two-step histories applied both to the newest member and to the shared ancestor; every member re-observed after every step"
+			return "family {base (P=4 rows, shared column storage via Copy), f0 = permuted+sliced frame with spare index capacity (n=3), results}; numeric cells symbolic, string/enum cells concrete; every one of 43 operations as single step; 16 two-step histories applied both to the newest member and to the shared ancestor; every member re-observed after every step"
 		},
 		Assume:   []string{"frames are built through New/Copy/withIndex/Slice so that column storage and index storage are shared", "user functions uninterpreted; hash uninterpreted"},
 		Outside:  []string{"histories longer than 3; more than 3 physical rows", "Append, Rolling"},
@@ -560,6 +597,9 @@ func init() {
 				jobs = append(jobs, Job{Harness: "VX_C12_scan", Params: P("L", "5", "cap", "1024", "sched", "whole"), MaxPaths: 2000000})
 				jobs = append(jobs, Job{Harness: "VX_C12_scan", Params: P("L", "3", "cap", "2", "sched", "any"), MaxPaths: 2000000})
 			}
+			// a delimiter byte outside ASCII (0xA7) with cells of non-UTF-8 bytes
+			jobs = append(jobs, Job{Harness: "VX_C12_scan", Params: P("L", "4", "cap", "1024", "sched", "whole", "delim", "167"), MaxPaths: 2000000})
+			jobs = append(jobs, Job{Harness: "VX_C12_scan", Params: P("L", "3", "cap", "1", "sched", "any", "delim", "167"), MaxPaths: 2000000})
 			for _, en := range []string{"false", "true"} {
 				jobs = append(jobs, Job{Harness: "VX_C12_infer", Params: P("rows", "1", "emptynull", en), MaxPaths: 500000})
 				jobs = append(jobs, Job{Harness: "VX_C12_infer", Params: P("rows", "2", "emptynull", en), MaxPaths: 500000})
@@ -588,7 +628,7 @@ func init() {
 			var jobs []Job
 			kinds, maxn := 5, 2
 			if tier == "thorough" {
-				kinds, maxn = 10, 2
+				kinds, maxn = 7, 2
 			}
 			for _, cs := range []string{"true", "false"} {
 				for _, pre := range []string{"false", "true"} {
@@ -602,8 +642,11 @@ func init() {
 								if tier != "thorough" && np+nc > 2 {
 									kk = 3
 								}
-								if tier == "thorough" && np+nc > 3 {
+								if tier == "thorough" && np+nc > 2 {
 									kk = 5
+								}
+								if tier == "thorough" && np+nc > 3 {
+									kk = 4
 								}
 								jobs = append(jobs, Job{Harness: "VX_C18_plain", Params: P("cs", cs, "pre", pre, "post", post, "np", itoa(np), "nc", itoa(nc), "kinds", itoa(kk)), MaxPaths: 500000})
 							}
@@ -614,10 +657,9 @@ func init() {
 					jobs = append(jobs, Job{Harness: "VX_C18_plain", Params: P("cs", cs, "pre", "true", "post", "true", "np", "0", "nc", "1", "kinds", itoa(kinds), "only", only)})
 				}
 				if tier == "thorough" {
-					jobs = append(jobs, Job{Harness: "VX_C18_plain", Params: P("cs", cs, "pre", "true", "post", "true", "np", "1", "nc", "3", "kinds", "10"), MaxPaths: 2000000})
-					jobs = append(jobs, Job{Harness: "VX_C18_plain", Params: P("cs", cs, "pre", "false", "post", "false", "np", "3", "nc", "3", "kinds", "4"), MaxPaths: 2000000})
+					jobs = append(jobs, Job{Harness: "VX_C18_plain", Params: P("cs", cs, "pre", "true", "post", "true", "np", "1", "nc", "3", "kinds", "4"), MaxPaths: 2000000})
 				}
-				for _, pat := range []string{"a.c", "%a.c", "a.c%", "%a.c%", "a(b", "%(", "[a-c]+", ".*", "%.%", "^a$", "a|b", "%a\\", "(?i)a.", "a{2}"} {
+				for _, pat := range []string{"a.c", "%a.c", "a.c%", "%a.c%", "a(b", "%(", "[a-c]+", ".*", "%.%", "^a$", "a|b", "%a\\", "(?i)a.", "a{2}", "\\d.", "[[:alpha:]]c", "a\\x41"} {
 					jobs = append(jobs, Job{Harness: "VX_C18_regex", Params: P("cs", cs, "pattern", pat, "nc", "2")})
 				}
 			}
@@ -629,6 +671,9 @@ func init() {
 			for _, cmp := range []string{"like", "ilike"} {
 				for _, pat := range []string{"b", "%b", "b%", "%b%", "B", "%", "b.", "%(", ""} {
 					jobs = append(jobs, Job{Harness: "VX_C18_columns", Params: P("cmp", cmp, "pattern", pat)})
+					if pat == "B" || pat == "%" || pat == "b%" {
+						jobs = append(jobs, Job{Harness: "VX_C18_columns", Params: P("cmp", cmp, "pattern", pat, "dup", "1")})
+					}
 					if pat == "b%" || pat == "b." || pat == "B" {
 						jobs = append(jobs, Job{Harness: "VX_C18_columns", Params: P("cmp", cmp, "pattern", pat, "ctx", "or")})
 					}
@@ -723,6 +768,7 @@ func init() {
 				add("string,int", 1, 1, "true", en, "true")
 				add("int,string", 2, 1, "true", en, "false")
 				add("enum,float", 2, 1, "true", en, "false")
+				add("enum", 3, 1, "true", en, "false")
 				add("float,bool", 2, 1, "true", en, "true")
 				add("int", 2, 1, "false", en, "false")
 				jobs = append(jobs, Job{Harness: "VX_C13_roundtrip", Params: P("types", "int,string", "n", "3", "strlen", "1", "header", "true", "emptynull", en, "reorder", "false", "ix", "full"), MaxPaths: 300000})
@@ -869,7 +915,7 @@ func init() {
 				tsRead = append(tsRead, "string,string", "bool,int,float", "string,float", "int,float,bool,string")
 				tsRT = append(tsRT, "bool,string", "int,float,bool,string,enum", "enum,enum", "float")
 			}
-			for _, d := range []string{"postgres", "sqlite", "mysql", "plain", "incr"} {
+			for _, d := range []string{"postgres", "sqlite", "mysql", "plain", "incr", "esc2", "esc3"} {
 				for _, ts := range tsTo {
 					table := "t"
 					if d == "mysql" {
